@@ -187,6 +187,9 @@ def run(res, facts, tier):
         if fn.startswith('XPath::find'):
             r4.ok(site, 'axis function (R1)')
             continue
+        if fn not in PRODUCERS and _single_node_list(facts, k):
+            r4.ok(site, 'one node added once to a list created in the function, flag set afterwards: a list of one node is in document order')
+            continue
         if fn not in PRODUCERS:
             r4.violation(site, 'raw addNode in a function that is neither an axis function nor a reviewed producer: document order / uniqueness is not maintained by addNode', facts.loc(k))
             continue
@@ -203,6 +206,27 @@ def run(res, facts, tier):
 
     c12_merge.r5_merge(res, facts)
     res.assume('C12: the search strategies inside addNodeInDocOrder (binary search by index, linear search by predicate) and the index numbering of a source tree are behavioural and not decided; R5 decides which nodes may bypass them')
+
+
+def _single_node_list(facts, k):
+    """the function adds with a single addNode, outside every loop, to a node list it created itself (a local BorrowReturn / GetCached list), and sets the order flag on every
+    path after the add: the list holds one node"""
+    a = facts.ast(k)
+    if a is None or a.get('body') is None:
+        return False
+    adds = [c for c in calls(a['body']) if c.get('k') == 'MCall' and c.get('n') == 'addNode' and 'MutableNodeRefList' in (c.get('cls') or '')]
+    if len(adds) != 1:
+        return False
+    c = adds[0]
+    for lp in walk(a['body']):
+        if lp.get('k') in ('For', 'While', 'Do') and any(y is c for y in walk(lp)):
+            return False
+    o = strip_casts(c.get('obj'))
+    while isinstance(o, dict) and o.get('k') == 'OpCall' and o.get('op') in ('->', '*') and o.get('args'):
+        o = strip_casts(o['args'][0])
+    if not (isinstance(o, dict) and o.get('k') == 'Ref' and o.get('d') == 'local' and ('BorrowReturnMutableNodeRefList' in (o.get('ty') or '') or 'GetCachedNodeList' in (o.get('ty') or ''))):
+        return False
+    return not flag_after_add(a, short(facts.name[k]))
 
 
 _run_c12_5 = run
@@ -322,3 +346,5 @@ _run_c12_7 = run
 def run(res, facts, tier):
     _run_c12_7(res, facts, tier)
     r8_builder_order(res, facts)
+    from . import c02_expr
+    c02_expr.run_c12_rule(res, facts, tier)
